@@ -2,6 +2,7 @@ import FastraceModel.Model.Report.Jaeger
 import FastraceModel.Model.Report.Datadog
 import FastraceModel.Model.Report.Otel
 import FastraceModel.Lemmas.JaegerDec
+import FastraceModel.Lemmas.DatadogDec
 import FastraceModel.Driver.Util
 namespace Fastrace.Driver
 open Fastrace
@@ -38,14 +39,25 @@ def parseRecord (s : String) : Option Record :=
 def parseRecords (s : String) : Option (List Record) :=
   if s == "_" then some [] else (s.splitOn ";").mapM parseRecord
 
+def sortStrings (l : List String) : List String := (l.toArray.qsort (· < ·)).toList
+
 def hexOfNats (b : List Nat) : String :=
   String.ofList (b.flatMap fun x => [nibChar (x / 16 % 16), nibChar (x % 16)])
 
 def showJView (v : Jaeger.JView) : String :=
   let tags (l : List (List Nat × List Nat)) : String :=
-    if l.isEmpty then "_" else "&".intercalate (l.map fun kv => s!"{hexOfNats kv.1}={hexOfNats kv.2}")
+    if l.isEmpty then "_" else "&".intercalate (l.map fun (kv : List Nat × List Nat) => s!"{hexOfNats kv.1}={hexOfNats kv.2}")
   let logs := if v.logs.isEmpty then "_" else "|".intercalate (v.logs.map fun l => s!"{hexOfNat l.1}@{tags l.2}")
   s!" {hexOfNat v.traceHigh}:{hexOfNat v.traceLow},{hexOfNat v.spanId},{hexOfNat v.parentId},{hexOfNats v.name},{v.flags},{hexOfNat v.startUs},{hexOfNat v.durUs},{tags v.tags},{logs}"
+
+/-- canonical text of a Datadog view; `meta` is a hash map on the real side: sorted here -/
+def showDdView (v : Datadog.DdView) : String :=
+  let mm := match v.metaMap with
+    | none => "none"
+    | some l =>
+      let items := sortStrings (l.map fun (kv : List Nat × List Nat) => s!"{hexOfNats kv.1}={hexOfNats kv.2}")
+      if items.isEmpty then "_" else "&".intercalate items
+  s!" {hexOfNats v.name},{hexOfNats v.service},{hexOfNats v.typ},{hexOfNats v.resource},{hexOfNat v.start},{hexOfNat v.duration},{mm},{v.errorCode},{hexOfNat v.spanId},{hexOfNat v.traceId},{hexOfNat v.parentId}"
 
 def reportStep (line : String) : String :=
   match words line with
@@ -81,6 +93,18 @@ def reportStep (line : String) : String :=
       match Jaeger.decodeBatch (b.toList.map (·.toNat)) with
       | none => "jv undecodable"
       | some (svc, vs) => "jv " ++ hexOfNats svc ++ String.join (vs.map showJView)
+  | ["ddec", hex] =>
+    -- the *proved* decoder (`C19_datadog_roundtrip`) applied to the body sent by the real reporter
+    match bytesOfHex hex with
+    | none => "bad-op"
+    | some b =>
+      match Datadog.decodeBody (b.toList.map (·.toNat)) with
+      | none => "dv undecodable"
+      | some vs => "dv" ++ String.join (vs.map showDdView)
+  | ["dview", svc, res, ty, recs] =>
+    match strOfHex svc, strOfHex res, strOfHex ty, parseRecords recs with
+    | some svc, some res, some ty, some rs => "dv" ++ String.join (rs.map fun r => showDdView (Datadog.ddView ⟨svc, res, ty⟩ r))
+    | _, _, _, _ => "bad-op"
   | ["jview", svc, recs] =>
     match strOfHex svc, parseRecords recs with
     | some svc, some rs => "jv " ++ hexOfNats (Jaeger.strBytes svc) ++ String.join (rs.map fun r => showJView (Jaeger.jaegerView r))
